@@ -10,6 +10,7 @@ import (
 	"fmt"
 	"io"
 	"log"
+	"math"
 	"net"
 	"os"
 	"slices"
@@ -74,6 +75,10 @@ const (
 	// connection is closed, preventing stalled clients from holding
 	// goroutines indefinitely.
 	connReadTimeout = 30 * time.Second
+
+	// maxRequestPrealloc is the largest request for which memory is allocated
+	// up front, on the strength of the length declared by the remote end.
+	maxRequestPrealloc = 1024 * 1024
 
 	// maxConcurrentConns bounds the number of connections the service handles
 	// concurrently, preventing connection floods from spawning unbounded goroutines.
@@ -378,13 +383,12 @@ func (s *Service) handleConn(conn net.Conn) {
 		}
 		sz := binary.LittleEndian.Uint64(b[0:])
 
-		p := make([]byte, sz)
 		if s.connTimeout > 0 {
 			if err := conn.SetReadDeadline(time.Now().Add(s.connTimeout)); err != nil {
 				return
 			}
 		}
-		_, err = io.ReadFull(conn, p)
+		p, err := readBytes(conn, sz)
 		if err != nil {
 			return
 		}
@@ -687,6 +691,31 @@ func (s *Service) handleConn(conn net.Conn) {
 			}
 		}
 	}
+}
+
+// readBytes reads exactly sz bytes from r. The length of a request is declared
+// by the remote end, so memory is allocated only as the data actually arrives:
+// a peer cannot make this node allocate an arbitrary amount of memory simply by
+// sending a large length.
+func readBytes(r io.Reader, sz uint64) ([]byte, error) {
+	if sz > math.MaxInt64 {
+		return nil, fmt.Errorf("invalid length %d", sz)
+	}
+	if sz <= maxRequestPrealloc {
+		p := make([]byte, sz)
+		_, err := io.ReadFull(r, p)
+		return p, err
+	}
+
+	var buf bytes.Buffer
+	buf.Grow(maxRequestPrealloc)
+	if _, err := io.CopyN(&buf, r, int64(sz)); err != nil {
+		if err == io.EOF {
+			err = io.ErrUnexpectedEOF
+		}
+		return nil, err
+	}
+	return buf.Bytes(), nil
 }
 
 func marshalAndWrite(conn net.Conn, m pb.Message) error {
